@@ -647,8 +647,35 @@ def gen_closed_arith(rnd, n):
             "shape_ok": lambda st: True}
 
 
+def gen_shadow(rnd, n):
+    """a block variable SHADOWS a theorem variable of the same name at another type (introduction with the clashing name),
+    then steps inside the block whose parameters mention that variable: induction on it, forall_elim / inst_exists_goal with
+    it, a cut stated with it (theory nat)"""
+    x = rnd.choice(BOUND)
+    outerT = rnd.choice(["bool", "nat => bool", "'a"])
+    vars_ = {x: outerT, "Q": "nat => bool", "A": "bool"}
+    kind = rnd.choice(["induct", "induct", "forall", "exists", "cut"])
+    assum = x if outerT == "bool" else "A"
+    if kind == "induct":
+        body = rnd.choice(["even (%s * (%s + 1))", "%s + 0 = %s", "0 + %s = %s", "%s * 1 = %s"]).replace("%s", x)
+        prop = "%s --> (!%s::nat. %s)" % (assum, x, body)
+        tail = [(on_gap(0, "induction", theorem="nat_induct", var=x), None)]
+    elif kind == "forall":
+        prop = "%s --> (!m::nat. Q m) --> (!%s::nat. Q %s)" % (assum, x, x)
+        tail = [(on_gap(0, "forall_elim", facts=[prop_is("!m. Q m")], s=x), None)]
+    elif kind == "exists":
+        prop = "%s --> (!%s::nat. ?m::nat. m = %s)" % (assum, x, x)
+        tail = [(on_gap(0, "inst_exists_goal", s=x), None)]
+    else:
+        prop = "%s --> (!%s::nat. Q %s)" % (assum, x, x)
+        tail = [(on_gap(0, "cut", goal="Q (%s + 0)" % x), None)]
+    script = [(on_gap(0, "introduction", names=x), None)] + tail
+    return {"name": "shadow_%d" % n, "shape": "shadow:" + kind, "theory": "nat", "vars": vars_, "prop": prop, "script": script,
+            "shape_ok": lambda st: any(it.rule == "variable" and it.args and it.args[0] == x for it in flat(st.prf))}
+
+
 GENERATORS = [gen_sibling_binders, gen_exists_twice, gen_cut_merged, gen_walk, gen_exists_nested, gen_intro_known, gen_redex_fact,
-              gen_closed_arith]
+              gen_closed_arith, gen_shadow]
 
 
 def make_session(rnd, n):
@@ -923,7 +950,9 @@ RECHECK_BEFORE = {}
 
 
 def fresh_names(state, gid, n, stem="s"):
-    used = set(state.get_vars(gid))
+    # fresh in the whole proof: a name declared by a LATER variable line of the block would clash too (exists_elim only looks
+    # at the names visible from the goal; a clash with a later declaration leaves an intros step that cannot be checked)
+    used = set(state.get_vars(gid)) | {it.args[0] for it in flat(state.prf) if it.rule == "variable" and it.args}
     out, i = [], 0
     while len(out) < n:
         if "%s%d" % (stem, i) not in used:
